@@ -52,3 +52,16 @@ Theorem C26_intra_rdata_pointer_example : exists w b',
   /\ ref_canon b' = Some w /\ length b' = 133.
 Proof. exact intra_rdata_example. Qed.
 Print Assumptions C26_intra_rdata_pointer_example.
+
+(* Over TCP every forwarded frame is the UDP forwarding of the same message behind its 2-byte length
+   prefix (the message is decoded on its own: pointers are relative to the message, not to the stream
+   buffer), and a pipelined stream is forwarded frame by frame, independently of how it is split. *)
+Theorem C26_tcp_frame_is_udp : forall msg f : bytes, forward_tcp_frame msg = Ok f ->
+  exists b, forward_udp msg = Ok b /\ f = put_u16be (N.of_nat (length b)) ++ b.
+Proof. exact tcp_frame_is_udp. Qed.
+Print Assumptions C26_tcp_frame_is_udp.
+
+Theorem C26_tcp_stream_compositional : forall a b : list bytes, forward_tcp_stream (a ++ b) =
+  match forward_tcp_stream a, forward_tcp_stream b with Some x, Some y => Some (x ++ y) | _, _ => None end.
+Proof. exact tcp_stream_app. Qed.
+Print Assumptions C26_tcp_stream_compositional.
